@@ -57,6 +57,7 @@ ASSUMPTIONS = [
 ]
 TRUSTED = ['tools/sfv/props/c01.py generate(): AST extraction of __setstate__ freeze statements and of the freeze-site census (fails closed on an unknown shape)']
 EXHAUSTIVE = {'quick': False, 'thorough': False}
+SHARD_SIZE = 120      # history cases carry whole observation traces: smaller shards evaluate in parallel
 
 
 # =============================================================================== literals
@@ -1605,6 +1606,8 @@ def enumeration_cases(ctx):
     tmp = tempfile.mkdtemp(prefix='c01_')
     budget = max(1, int((3 if ctx.tier == 'quick' else 8) * min(ctx.scale, 3)))
     import warnings
+    old_tempdir = tempfile.tempdir
+    tempfile.tempdir = tmp        # the library's own temporary files (to_html_datatables(fp=None)) land in the scratch directory
     try:
         seen_cls = set()
         coverage = {}
@@ -1646,6 +1649,7 @@ def enumeration_cases(ctx):
                                                'not_exercised': missing[:80], 'never_returned': sorted(hit - okhit)[:80]},
                        tags={'cls': cls.__name__}, nontrivial=True, key=f'coverage|{cls.__name__}')
     finally:
+        tempfile.tempdir = old_tempdir
         shutil.rmtree(tmp, ignore_errors=True)
 
 
